@@ -2,7 +2,7 @@
    `serialize`/`parse` functions (src/common/headers/*.rs, pack_info.rs, pack_locator.rs,
    bases/types/sized_offset.rs) and checked byte for byte by the correspondence. *)
 From Coq Require Import List Arith NArith ZArith Lia ZifyN ZifyBool ZifyNat.
-From Jbk Require Import Base.ListExtra Base.Bytes Base.Crc Base.Parser.
+From Jbk Require Import Base.ListExtra Base.Bytes Base.Crc Base.Parser Base.Utf8.
 Import ListNotations.
 Open Scope N_scope.
 
@@ -105,6 +105,7 @@ Definition p_pack_info : parser pack_info :=
     '(grp, l) <- p_u 1 l ;; '(fid, l) <- p_u 2 l ;;
     '(n, l) <- p_u 1 l ;; '(loc, l) <- p_bytes (N.to_nat n) l ;;
     '(_, l) <- p_skip (213 - N.to_nat n) l ;;
+    if negb (utf8_valid loc) then Err EFormat else        (* PString -> SmallString: from_utf8 *)
     Ok ({| pi_uuid := u; pi_size := s; pi_check := ck; pi_id := id; pi_kind := kind; pi_group := grp;
            pi_free_id := fid; pi_loc := loc |}, l).
 
@@ -114,9 +115,11 @@ Definition set_loc (p : pack_info) (loc : list N) : pack_info :=
 
 (* ---- well-formedness = representability ---- *)
 Definition wf_sized_offset (s : sized_offset) := so_size s < 2 ^ 16 /\ so_off s < 2 ^ 48.
+(* an admissible location: a string (well-formed UTF-8) of at most 213 bytes *)
+Definition wf_loc (loc : list N) := (length loc <= 213)%nat /\ utf8_valid loc = true.
 Definition wf_pack_info (p : pack_info) :=
   length (pi_uuid p) = 16%nat /\ pi_size p < 2 ^ 64 /\ wf_sized_offset (pi_check p) /\
-  pi_id p < 2 ^ 16 /\ pi_group p < 256 /\ pi_free_id p < 2 ^ 16 /\ (length (pi_loc p) <= 213)%nat.
+  pi_id p < 2 ^ 16 /\ pi_group p < 256 /\ pi_free_id p < 2 ^ 16 /\ wf_loc (pi_loc p).
 
 Lemma zerosN_length n : length (zerosN n) = n.
 Proof. apply repeat_length. Qed.
@@ -149,7 +152,7 @@ Proof. intros H. unfold ser_location. rewrite !app_length, zerosN_length. cbn [l
 
 Lemma ser_pack_info_length p : wf_pack_info p -> length (ser_pack_info p) = 252%nat.
 Proof.
-  intros (Hu & _ & _ & _ & _ & _ & Hl). unfold ser_pack_info.
+  intros (Hu & _ & _ & _ & _ & _ & Hl & _). unfold ser_pack_info.
   rewrite app_length, pi_fixed_length, ser_location_length by assumption. reflexivity.
 Qed.
 
@@ -165,7 +168,7 @@ Qed.
 (* the reader recovers exactly the pack info that was serialised *)
 Theorem p_pack_info_ser p r : wf_pack_info p -> p_pack_info (ser_pack_info p ++ r) = Ok (p, r).
 Proof.
-  intros (Hu & Hs & Hc & Hid & Hg & Hf & Hl).
+  intros (Hu & Hs & Hc & Hid & Hg & Hf & Hl & Hu8).
   unfold p_pack_info, ser_pack_info, pi_fixed, ser_location. rewrite <- !app_assoc.
   rewrite p_bytes_app by (symmetry; exact Hu). cbn [bind].
   rewrite p_u_enc by exact Hs. cbn [bind].
@@ -180,12 +183,12 @@ Proof.
   rewrite Nat2N.id.
   rewrite p_bytes_app by reflexivity. cbn [bind].
   rewrite p_skip_app by (now rewrite zerosN_length). cbn [bind].
-  destruct p; reflexivity.
+  rewrite Hu8. cbn [negb]. destruct p; reflexivity.
 Qed.
 
 (* rewriting the location leaves the 38 checked bytes alone *)
 Lemma pi_fixed_set_loc p loc : pi_fixed (set_loc p loc) = pi_fixed p.
 Proof. reflexivity. Qed.
-Lemma wf_set_loc p loc : wf_pack_info p -> (length loc <= 213)%nat -> wf_pack_info (set_loc p loc).
+Lemma wf_set_loc p loc : wf_pack_info p -> wf_loc loc -> wf_pack_info (set_loc p loc).
 Proof. unfold wf_pack_info. cbn. tauto. Qed.
 Close Scope N_scope.
